@@ -4,6 +4,10 @@ Implementation under test: torch_frame.transforms.CatToNumTransform (fit, __call
 state_dict / load_state_dict).  A case is a HISTORY: [call before fit] ; fit ; keys ; (call | round trip)*, where the
 frames to transform have the fitted schema and are row subsets of a pool (any rows, single rows, repeated rows),
 with label content that is absent / a strict subset of the classes / arbitrary / of another dtype.
+A third of the histories keep TWO OR THREE transform instances alive, fitted on different data over the SAME column
+names and used interleaved (fit a; call a; save a; fit b; call a on the same frame again; call b; load a's saved
+state into a fresh instance; call it): a fitted transform is a value of its own, nothing another instance does may
+change what it returns (the oracle compares with the instance's own fit AND with its own earlier output).
 
 oracle: plain-Python reference of the documented estimate with exact Fractions (never looks at the transformed
 frame's y, never at other rows); correspondence: coq/Model/CatToNum.v `run_history` on the same history.
@@ -24,7 +28,8 @@ HEADER = "Require Import Coq.QArith.QArith PF.Lib.ListX PF.Model.CatToNum."
 MODEL_TARGETS = ["Model/CatToNum.vo"]
 SHARD = 60
 RULE = ("histories [call-before-fit]; fit; keys; (call | state_dict round trip)* of CatToNumTransform on directly "
-        "built TensorFrames; distinct = distinct (task, #numerical, #categorical, num_classes, per call: rows kind, "
+        "built TensorFrames, one third of them interleaving 2-3 instances fitted on different data with the same "
+        "column names (incl. save before / load after another instance's fit, repeated frames); distinct = distinct (task, #numerical, #categorical, num_classes, per call: rows kind, "
         "label kind, has-missing, ok/err, output width, round trips before it); non-trivial = at least one "
         "successful call on a frame whose labels differ from the training labels (absent, subset of classes, other "
         "dtype, arbitrary) or on a strict row subset, or an expected raise")
@@ -105,13 +110,10 @@ def sel_labels(y, rows):
     return None if y is None else {"t": y["t"], "v": [y["v"][r] for r in rows]}
 
 
-def gen_case(rng, tier):
-    task = rng.pick(["regression", "binary", "multiclass", "multiclass"])
+def make_world(rng, cat_names, num_names, task=None):
+    """One data set over the given schema: a pool of rows, its labels, its column statistics, a training prefix."""
+    task = task or rng.pick(["regression", "binary", "multiclass", "multiclass"])
     k = rng.pick([3, 4]) if task == "multiclass" else 2
-    ncat = rng.wpick([(4, 1), (4, 2), (2, 3)])
-    nnum = rng.wpick([(3, 0), (3, 1), (2, 2)])
-    cat_names = rng.sample(CAT_NAMES, ncat)
-    num_names = rng.sample(NUM_NAMES, nnum)
     P = rng.randint(3, 9)                     # pool rows; the training frame is a prefix (or all) of the pool
     ntrain = P if rng.chance(0.5) else rng.randint(2, P)
     stats, cat_cols = {}, []
@@ -141,59 +143,137 @@ def gen_case(rng, tier):
     for name in num_names:
         num_cols.append([None if rng.chance(0.1) else q(Fr(rng.randint(-64, 64), 8)) for _ in range(P)])
         stats[name] = []
-    pool = {"num": {"names": num_names, "cols": num_cols} if nnum else None,
+    pool = {"num": {"names": num_names, "cols": num_cols} if num_names else None,
             "cat": {"names": cat_names, "cols": cat_cols}}
     ypool = gen_labels(rng, task, P, k)
     if task == "multiclass":                   # the top class lies inside the training prefix
         ypool["v"][rng.randrange(ntrain)] = k - 1
     if task == "regression" and all(v is None for v in ypool["v"][:ntrain]):
         ypool["v"][0] = q(1)
-    train_rows = list(range(ntrain))
+    return dict(task=task, k=k, P=P, ntrain=ntrain, pool=pool, ypool=ypool, stats=stats, prev_rows=None)
+
+
+LABEL_KINDS = ["none", "own", "subset", "zeros", "bigint", "float"]
+
+
+def fit_step(rng, w, malformed=False):
+    rows = list(range(w["ntrain"]))
+    y = None if malformed else sel_labels(w["ypool"], rows)
+    return {"op": "fit", "frame": frame_of(w["pool"], rows, y), "stats": w["stats"], "task": w["task"]}
+
+
+def unfitted_step(rng, w):
+    rows = [rng.randrange(w["P"])]
+    return {"op": "call", "frame": frame_of(w["pool"], rows, sel_labels(w["ypool"], rows)), "why": "unfitted",
+            "rows": "single", "labels": "own"}
+
+
+def call_step(rng, w, unseen_rate=0.06):
+    P, pool = w["P"], w["pool"]
+    r = rng.random()
+    if w["prev_rows"] is not None and r < 0.3:
+        rows, rk = w["prev_rows"], "same"       # same rows, other labels: label independence, directly
+    elif r < 0.45:
+        rows, rk = list(range(P)), "all"
+    elif r < 0.6:
+        rows, rk = [rng.randrange(P)], "single"
+    elif r < 0.8:
+        rows, rk = sorted(rng.sample(range(P), rng.randint(1, P))), "subset"
+    else:
+        rows, rk = [rng.randrange(P) for _ in range(rng.randint(1, P + 2))], "multiset"
+    # within the quantifier: every categorical column keeps a non-missing entry
+    for col in pool["cat"]["cols"]:
+        if all(col[r_] < 0 for r_ in rows):
+            rows = rows + [rng.pick([i for i in range(P) if col[i] >= 0])]
+    w["prev_rows"] = rows
+    lk = rng.pick(LABEL_KINDS)
+    y = other_labels(rng, w["task"], len(rows), w["k"], lk, sel_labels(w["ypool"], rows))
+    frame = frame_of(pool, rows, y)
+    st = {"op": "call", "frame": frame, "rows": rk, "labels": lk}
+    if rng.chance(unseen_rate):                 # a category index not seen at fit time
+        names = pool["cat"]["names"]
+        ci = rng.randrange(len(names))
+        frame["cat"]["cols"][ci] = list(frame["cat"]["cols"][ci])
+        frame["cat"]["cols"][ci][rng.randrange(len(rows))] = len(w["stats"][names[ci]]) + rng.randint(0, 2)
+        st["why"] = "unseen"
+    return st
+
+
+def gen_schema(rng):
+    ncat = rng.wpick([(4, 1), (4, 2), (2, 3)])
+    nnum = rng.wpick([(3, 0), (3, 1), (2, 2)])
+    return rng.sample(CAT_NAMES, ncat), rng.sample(NUM_NAMES, nnum)
+
+
+def gen_single(rng):
+    """one transform instance: [call before fit]; fit; keys; (call | round trip)*"""
+    w = make_world(rng, *gen_schema(rng))
     steps = []
     if rng.chance(0.12):
-        rows = [rng.randrange(P)]
-        steps.append({"op": "call", "frame": frame_of(pool, rows, sel_labels(ypool, rows)), "why": "unfitted",
-                      "rows": "single", "labels": "own"})
-    fit_y = sel_labels(ypool, train_rows)
-    if rng.chance(0.02):
-        fit_y = None                            # malformed: fitting without a target
-    steps.append({"op": "fit", "frame": frame_of(pool, train_rows, fit_y), "stats": stats})
+        steps.append(unfitted_step(rng, w))
+    steps.append(fit_step(rng, w, malformed=rng.chance(0.02)))
     steps.append({"op": "keys"})
-    ncalls = rng.randint(2, 5)
-    label_kinds = ["none", "own", "subset", "zeros", "bigint", "float"]
-    prev_rows = None
-    for _ in range(ncalls):
+    for _ in range(rng.randint(2, 5)):
         if rng.chance(0.25):
             steps.append({"op": "roundtrip", "how": rng.pick(["direct", "deepcopy", "torch"])})
-        r = rng.random()
-        if prev_rows is not None and r < 0.3:
-            rows, rk = prev_rows, "same"        # same rows, other labels: label independence, directly
-        elif r < 0.45:
-            rows, rk = list(range(P)), "all"
-        elif r < 0.6:
-            rows, rk = [rng.randrange(P)], "single"
-        elif r < 0.8:
-            rows, rk = sorted(rng.sample(range(P), rng.randint(1, P))), "subset"
-        else:
-            rows, rk = [rng.randrange(P) for _ in range(rng.randint(1, P + 2))], "multiset"
-        # within the quantifier: every categorical column keeps a non-missing entry
-        for col in cat_cols:
-            if all(col[r_] < 0 for r_ in rows):
-                rows = rows + [rng.pick([i for i in range(P) if col[i] >= 0])]
-        prev_rows = rows
-        lk = rng.pick(label_kinds)
-        y = other_labels(rng, task, len(rows), k, lk, sel_labels(ypool, rows))
-        frame = frame_of(pool, rows, y)
-        st = {"op": "call", "frame": frame, "rows": rk, "labels": lk}
-        if rng.chance(0.06):                    # a category index not seen at fit time
-            ci = rng.randrange(ncat)
-            frame["cat"]["cols"][ci] = list(frame["cat"]["cols"][ci])
-            frame["cat"]["cols"][ci][rng.randrange(len(rows))] = len(stats[cat_names[ci]]) + rng.randint(0, 2)
-            st["why"] = "unseen"
-        steps.append(st)
+        steps.append(call_step(rng, w))
     if rng.chance(0.3):
         steps.append({"op": "keys"})
-    return {"task": task, "k": k, "steps": steps}
+    return {"task": w["task"], "k": w["k"], "steps": steps}
+
+
+def gen_multi(rng):
+    """Two or three transform INSTANCES alive at once, fitted on DIFFERENT data over the SAME column names and used
+    interleaved: a fitted transform is a value of its own -- its outputs may not change when another instance is
+    fitted, and its saved state_dict loaded into a fresh instance later must reproduce them."""
+    cat_names, num_names = gen_schema(rng)
+    n = rng.pick([2, 2, 3])
+    ws = [make_world(rng, cat_names, num_names) for _ in range(n)]
+    steps, fitted, saved = [], [], set()
+
+    def add(i, st):
+        st = dict(st, inst=i)
+        steps.append(st)
+        return st
+
+    # instance 0: fit, use, remember one call to repeat later, save its state
+    add(0, fit_step(rng, ws[0]))
+    add(0, {"op": "keys"})
+    first = add(0, call_step(rng, ws[0], unseen_rate=0.0))
+    if rng.chance(0.7):
+        add(0, {"op": "save", "how": rng.pick(["direct", "deepcopy", "torch"])})
+        saved.add(0)
+    fitted.append(0)
+    for i in range(1, n):
+        if rng.chance(0.15):
+            add(i, unfitted_step(rng, ws[i]))   # instance i is still unfitted although others are fitted
+        add(i, fit_step(rng, ws[i]))
+        fitted.append(i)
+        # the earlier instances again, after the other fit: the very same frame, then fresh ones
+        add(0, dict(first, rows="repeat"))
+        for _ in range(rng.randint(1, 3)):
+            j = rng.pick(fitted)
+            r = rng.random()
+            if r < 0.2 and j in saved:
+                add(j, {"op": "load"})          # fresh instance <- the state_dict saved before the other fits
+            elif r < 0.35:
+                add(j, {"op": "roundtrip", "how": rng.pick(["direct", "deepcopy", "torch"])})
+            elif r < 0.45:
+                add(j, {"op": "keys"})
+            elif r < 0.55 and j not in saved:
+                add(j, {"op": "save", "how": rng.pick(["direct", "deepcopy", "torch"])})
+                saved.add(j)
+                continue
+            add(j, call_step(rng, ws[j]))
+    if 0 in saved:
+        add(0, {"op": "load"})
+    add(0, dict(first, rows="repeat"))
+    add(rng.pick(fitted), {"op": "keys"})
+    return {"task": "multi", "k": max(w["k"] for w in ws), "steps": steps}
+
+
+def gen_case(rng, tier):
+    return gen_multi(rng) if rng.chance(0.35) else gen_single(rng)
 
 
 def exhaustive_small(rng):
@@ -306,12 +386,34 @@ def cell(v):
     return q(Fr(v))
 
 
+def dump_state(t, how):
+    sd = t.state_dict()
+    if how == "deepcopy":
+        return copy.deepcopy(sd)
+    if how == "torch":
+        buf = io.BytesIO()
+        torch.save(sd, buf)
+        return buf.getvalue()
+    return sd
+
+
+def load_state(blob):
+    from torch_frame.transforms import CatToNumTransform
+    if isinstance(blob, bytes):
+        blob = torch.load(io.BytesIO(blob), weights_only=False)
+    return CatToNumTransform().load_state_dict(blob)
+
+
 def run(case):
     from torch_frame import stype
     from torch_frame.transforms import CatToNumTransform
-    t = CatToNumTransform()
+    ts, saved = {}, {}
     out = []
     for st in case["steps"]:
+        i = st.get("inst", 0)
+        if i not in ts:
+            ts[i] = CatToNumTransform()
+        t = ts[i]
         if st["op"] == "fit":
             tf = build_frame(st["frame"])
             cs = build_stats(st["frame"], st["stats"])
@@ -327,16 +429,23 @@ def run(case):
             except Exception as ex:
                 out.append({"ok": False, "exc": C.exc_name(ex)})
         elif st["op"] == "roundtrip":
-            sd = t.state_dict()
-            if st["how"] == "deepcopy":
-                sd = copy.deepcopy(sd)
-            elif st["how"] == "torch":
-                buf = io.BytesIO()
-                torch.save(sd, buf)
-                buf.seek(0)
-                sd = torch.load(buf, weights_only=False)
-            t = CatToNumTransform().load_state_dict(sd)
-            out.append({"ok": True})
+            try:
+                ts[i] = load_state(dump_state(t, st["how"]))
+                out.append({"ok": True})
+            except Exception as ex:
+                out.append({"ok": False, "exc": C.exc_name(ex)})
+        elif st["op"] == "save":
+            try:
+                saved[i] = dump_state(t, st["how"])
+                out.append({"ok": True})
+            except Exception as ex:
+                out.append({"ok": False, "exc": C.exc_name(ex)})
+        elif st["op"] == "load":
+            try:
+                ts[i] = load_state(saved[i])
+                out.append({"ok": True})
+            except Exception as ex:
+                out.append({"ok": False, "exc": C.exc_name(ex)})
         else:
             tf = build_frame(st["frame"])
             snap = snapshot(tf)
@@ -398,17 +507,18 @@ def ref_call(fi, frame):
     return ref_names(fi), cols
 
 
-def case_tol(case):
-    """float32 tolerance of the generated cells for this history"""
-    fitst = [s for s in case["steps"] if s["op"] == "fit"]
-    if not fitst:
-        return Fr(1, 10 ** 6)
-    f = fitst[0]
+def fit_tol(f):
+    """float32 tolerance of the cells generated by a transform fitted with this fit step"""
     y = f["frame"]["y"]
     ys = [Fr(0)] if y is None else [abs(fr(v)) if y["t"] == "float" else Fr(abs(v)) for v in y["v"] if v is not None]
     mc = max([1] + [c for cs in f["stats"].values() for c in cs])
     n = len(f["frame"]["cat"]["cols"][0])
     return Fr(1, 10 ** 6) * (mc + max(ys + [Fr(0)]) + 1) / (n + 1)
+
+
+def inst_tol(case, inst):
+    fitst = [s for s in case["steps"] if s["op"] == "fit" and s.get("inst", 0) == inst]
+    return fit_tol(fitst[0]) if fitst else Fr(1, 10 ** 6)
 
 
 def fail(key, what, **kw):
@@ -417,18 +527,39 @@ def fail(key, what, **kw):
     return d
 
 
+def same_cells(a, b, tol):
+    if len(a) != len(b) or any(len(x) != len(y) for x, y in zip(a, b)):
+        return False
+    for x, y in zip(a, b):
+        for va, vb in zip(x, y):
+            if va is None or vb is None or va == "inf" or vb == "inf":
+                if va != vb:
+                    return False
+            elif abs(fr(va) - fr(vb)) > tol:
+                return False
+    return True
+
+
 def oracle(case, obs):
     if "harness_exc" in obs:
         return fail("harness-exc", "harness failed to run the case: " + obs["harness_exc"], tb=obs.get("tb"))
-    tol = case_tol(case)
-    fi = None
-    task = case["task"]
+    fis, tasks, tols, seen = {}, {}, {}, {}
+    others_fitted = {}             # inst -> number of fits of OTHER instances since this instance was fitted
     for k, (st, o) in enumerate(zip(case["steps"], obs["steps"])):
+        inst = st.get("inst", 0)
+        fi = fis.get(inst)
+        task = tasks.get(inst, case["task"])
         if st["op"] == "fit":
+            task = tasks[inst] = st.get("task", case["task"])
             try:
-                fi = ref_fit(st["frame"], st["stats"])
+                fis[inst] = ref_fit(st["frame"], st["stats"])
             except RefErr:
                 return None                     # fitting without usable target: outside the property
+            tols[inst] = fit_tol(st)
+            for j in others_fitted:
+                others_fitted[j] += 1
+            others_fitted[inst] = 0
+            seen = {kk: v for kk, v in seen.items() if kk[0] != inst}
             if not o["ok"]:
                 return fail(f"fit-raises:{task}", f"fit raised {o.get('exc')} on a valid training frame", observed=o)
         elif st["op"] == "keys":
@@ -438,11 +569,12 @@ def oracle(case, obs):
                 return fail(f"stats-keys:{task}", "transformed_stats keys are not the output column names "
                             "(numerical columns, then one per categorical column and non-reference class)",
                             expected=ref_names(fi), observed=o)
-        elif st["op"] == "roundtrip":
+        elif st["op"] in ("roundtrip", "save", "load"):
             if not o["ok"]:
-                return fail("roundtrip-raises", "state_dict/load_state_dict raised", observed=o)
+                return fail("roundtrip-raises", f"state_dict/load_state_dict ({st['op']}) raised", observed=o)
         else:
             lk = f"{task}:{st.get('labels')}"
+            tol = tols.get(inst, Fr(1, 10 ** 6))
             if not o.get("src_same", True):
                 return fail(f"source-modified:{task}", f"step {k}: the transform modified the input frame", observed=o)
             if fi is None:
@@ -450,6 +582,19 @@ def oracle(case, obs):
                     return fail("no-raise:unfitted", f"step {k}: transform used before fit returned a frame",
                                 observed=o)
                 continue
+            # a fitted transform is a value: the same instance on the same frame returns what it returned before,
+            # whatever happened to OTHER instances (fits, round trips) in between
+            fk = (inst, json.dumps(st["frame"], sort_keys=True))
+            if fk in seen:
+                k0, o0 = seen[fk]
+                if o0["ok"] != o["ok"] or (o["ok"] and (o0["names"] != o["names"]
+                                                        or not same_cells(o0["cols"], o["cols"], tol))):
+                    why = ("another instance was fitted in between" if others_fitted.get(inst) else
+                           "only calls / state_dict round trips of this instance in between")
+                    return fail(f"history-dependent:{task}", f"step {k}: instance {inst} returned a different result "
+                                f"for the very frame of step {k0} ({why})", expected=o0, observed=o)
+            else:
+                seen[fk] = (k, o)
             if st.get("why") == "unseen":
                 if o["ok"]:
                     return fail(f"no-raise:unseen:{task}", f"step {k}: a category index not seen at fit time was "
@@ -480,20 +625,28 @@ def oracle(case, obs):
                         good = abs(fr(va) - vb) <= tol
                     if not good:
                         kind = "numerical-changed" if j < nn else "value"
-                        return fail(f"{kind}:{lk}", f"step {k}: cell (row {i}, column {names[j]}) is not "
-                                    + ("the original numerical cell" if j < nn else
-                                       "(count + prior) / (n_train + 1)"),
+                        return fail(f"{kind}:{lk}", f"step {k}: cell (row {i}, column {names[j]}) of instance {inst} "
+                                    "is not " + ("the original numerical cell" if j < nn else
+                                                 "(count + prior) / (n_train + 1) of ITS OWN fit"),
                                     expected=None if vb is None else str(vb), observed=va)
-    if len(obs["steps"]) < len(case["steps"]) and fi is not None:
+    if len(obs["steps"]) < len(case["steps"]) and fis:
         return fail("short-run", "history stopped early", observed=obs)
     return None
 
 
 def shrink(case):
     steps = case["steps"]
+    insts = sorted({s_.get("inst", 0) for s_ in steps})
+    if len(insts) > 1:
+        for i in insts:                          # drop a whole instance
+            yield dict(case, steps=[s_ for s_ in steps if s_.get("inst", 0) != i])
     for k in range(len(steps)):
-        if steps[k]["op"] != "fit":
-            yield dict(case, steps=steps[:k] + steps[k + 1:])
+        if steps[k]["op"] == "fit":
+            continue
+        if steps[k]["op"] == "save" and any(s_["op"] == "load" and s_.get("inst", 0) == steps[k].get("inst", 0)
+                                            for s_ in steps[k:]):
+            continue
+        yield dict(case, steps=steps[:k] + steps[k + 1:])
     # drop rows of call frames
     for k, st in enumerate(steps):
         if st["op"] != "call":
@@ -517,15 +670,21 @@ def shrink(case):
 def nontrivial_sig(case, obs):
     steps = obs.get("steps", [])
     sig, nontriv, rts = [case["task"], case["k"]], False, 0
+    fitted = set()
     for st, o in zip(case["steps"], steps):
+        inst = st.get("inst", 0)
         if st["op"] == "fit":
             f = st["frame"]
-            sig.append(("fit", len(f["num"]["names"]) if f["num"] else 0, len(f["cat"]["names"]), o["ok"]))
-        elif st["op"] == "roundtrip":
+            sig.append(("fit", inst, st.get("task"), len(f["num"]["names"]) if f["num"] else 0,
+                        len(f["cat"]["names"]), o["ok"]))
+            fitted.add(inst)
+        elif st["op"] in ("roundtrip", "load"):
             rts += 1
+            sig.append((st["op"], inst))
         elif st["op"] == "call":
             miss = any(v < 0 for c in st["frame"]["cat"]["cols"] for v in c)
-            sig.append((st.get("rows"), st.get("labels"), miss, o["ok"], len(o.get("names", [])), rts, st.get("why")))
+            sig.append((inst, len(fitted), st.get("rows"), st.get("labels"), miss, o["ok"], len(o.get("names", [])),
+                        rts, st.get("why")))
             if not o["ok"] and st.get("why"):
                 nontriv = True
             if o["ok"] and (st.get("labels") != "own" or st.get("rows") not in ("all",)):
@@ -536,22 +695,30 @@ def nontrivial_sig(case, obs):
 def stats(cases, obss):
     d = {"total": 0, "task": {}, "ncat": {}, "nnum": {}, "labels": {}, "rows": {}, "calls": 0, "call_errors": 0,
          "unfitted_calls": 0, "unseen_calls": 0, "roundtrips": {}, "fit_errors": 0, "calls_with_missing": 0,
-         "history_len": {}}
+         "history_len": {}, "instances": {}, "calls_after_another_instance_was_fitted": 0,
+         "repeated_frame_calls": 0, "loads_of_saved_state": 0}
     for c, o in zip(cases, obss):
         if c is None:
             continue
         d["total"] += 1
         d["task"][c["task"]] = d["task"].get(c["task"], 0) + 1
         d["history_len"][len(c["steps"])] = d["history_len"].get(len(c["steps"]), 0) + 1
+        ni = len({s_.get("inst", 0) for s_ in c["steps"]})
+        d["instances"][ni] = d["instances"].get(ni, 0) + 1
+        fit_order = []
         for st, ob in zip(c["steps"], (o or {}).get("steps", [])):
+            inst = st.get("inst", 0)
             if st["op"] == "fit":
                 f = st["frame"]
                 nn = len(f["num"]["names"]) if f["num"] else 0
                 d["nnum"][nn] = d["nnum"].get(nn, 0) + 1
                 d["ncat"][len(f["cat"]["names"])] = d["ncat"].get(len(f["cat"]["names"]), 0) + 1
                 d["fit_errors"] += int(not ob["ok"])
-            elif st["op"] == "roundtrip":
+                fit_order.append(inst)
+            elif st["op"] in ("roundtrip", "save"):
                 d["roundtrips"][st["how"]] = d["roundtrips"].get(st["how"], 0) + 1
+            elif st["op"] == "load":
+                d["loads_of_saved_state"] += 1
             elif st["op"] == "call":
                 d["calls"] += 1
                 d["call_errors"] += int(not ob["ok"])
@@ -560,6 +727,8 @@ def stats(cases, obss):
                 d["unfitted_calls"] += int(st.get("why") == "unfitted")
                 d["unseen_calls"] += int(st.get("why") == "unseen")
                 d["calls_with_missing"] += int(any(v < 0 for col in st["frame"]["cat"]["cols"] for v in col))
+                d["calls_after_another_instance_was_fitted"] += int(inst in fit_order and fit_order[-1] != inst)
+                d["repeated_frame_calls"] += int(st.get("rows") == "repeat")
     return d
 
 
@@ -601,15 +770,15 @@ def coq_step(st):
         return f"SFit {coq_frame(st['frame'])} {coq_stats(st['stats'])}"
     if st["op"] == "call":
         return f"SCall {coq_frame(st['frame'])}"
-    if st["op"] == "roundtrip":
-        return "SRoundTrip"
+    if st["op"] in ("roundtrip", "load"):
+        return "SRoundTrip"       # a fresh instance with the (saved) state: the identity on the model's values
     return "SKeys"
 
 
 def coq_obs(st, o):
     if not o["ok"]:
         return "OErr"
-    if st["op"] in ("fit", "roundtrip"):
+    if st["op"] in ("fit", "roundtrip", "load"):
         return "ODone"
     if st["op"] == "keys":
         return f"OKeys {C.clist(o['keys'], C.cstr)}"
@@ -618,13 +787,22 @@ def coq_obs(st, o):
 
 
 def coq_term(case, obs):
+    """In the model transform instances are independent values, so a history over several instances is the
+    conjunction of the per-instance histories (a saved state is loaded only while its instance is not re-fitted:
+    load = round trip)."""
     if "steps" not in obs:
         return None
     if any(v == "inf" for o in obs["steps"] for c in o.get("cols", []) for v in c):
         return "false"
     if any(not o.get("src_same", True) or not o.get("is_new", True) for o in obs["steps"]):
         return "false"               # the model's purity assumption (call = forward of an untouched copy) is violated
-    n = len(obs["steps"])
-    steps = C.clist(case["steps"][:n], coq_step)
-    os_ = C.clist(list(zip(case["steps"][:n], obs["steps"])), lambda p: coq_obs(*p))
-    return f"history_agrees {cq(case_tol(case))} {steps} {os_}"
+    if any(st["op"] in ("save", "load", "roundtrip") and not o["ok"] for st, o in zip(case["steps"], obs["steps"])):
+        return "false"
+    pairs = list(zip(case["steps"], obs["steps"]))
+    terms = []
+    for inst in sorted({st.get("inst", 0) for st, _ in pairs}):
+        mine = [(st, o) for st, o in pairs if st.get("inst", 0) == inst and st["op"] != "save"]
+        steps = C.clist([st for st, _ in mine], coq_step)
+        os_ = C.clist(mine, lambda p_: coq_obs(*p_))
+        terms.append(f"history_agrees {cq(inst_tol(case, inst))} {steps} {os_}")
+    return "(" + " && ".join(terms) + ")"
